@@ -283,6 +283,38 @@ def replay_pi4_1d(ctx, cell, case):
     check_pi4_1d(ctx, case["scheme"])
 
 
+def check_long(ctx, cell, case):
+    """Long inputs (70001 points in one row; 7 x 5003): the decisions and LLRs must be the ones the same points get in pieces of 997 -
+    pieces of that size are what check_scheme verifies against the distance oracle. An implementation that works in chunks must not lose a tail."""
+    import torch
+    s = case["scheme"]
+    cell = cell or {**s, "layout": "long"}
+    if mc.kind(s) != "memoryless":
+        return
+    mod, dem = mc.build(s)
+    pts, _ = ref_table(s, mod, 0)
+    rng = np.random.RandomState(case.get("seed", ctx.seed) + 17)
+    R = 1.3 * float(np.abs(pts).max())
+    for shape in ((70001,), (7, 5003)):
+        N = int(np.prod(shape))
+        Y = (rng.uniform(-R, R, size=N) + 1j * (rng.uniform(-R, R, size=N) if np.iscomplexobj(pts) and np.abs(pts.imag).max() > 0 else 0)).astype(np.complex64)
+        for mode, kw in (("hard", {}), ("soft", {"noise_var": 0.5})):
+            if mode == "soft" and len(shape) == 1 and ctx.tier != "thorough":
+                continue
+            ok, whole = ctx.call(lambda: dem(torch.from_numpy(Y.reshape(shape)), **kw).detach().numpy().reshape(N, -1), "C06.a_raises", cell, {"scheme": s, "layout": "long", "shape": list(shape), "mode": mode}, checker="c06:check_long")
+            if not ok:
+                continue
+            parts = np.concatenate([dem(torch.from_numpy(Y[i:i + 997]), **kw).detach().numpy().reshape(len(Y[i:i + 997]), -1) for i in range(0, N, 997)])
+            ctx.ev(N)
+            same = whole.shape == parts.shape and (np.array_equal(whole, parts) if mode == "hard" else np.allclose(whole, parts, rtol=1e-4, atol=1e-5))
+            if not same:
+                bad = np.nonzero((whole != parts).any(axis=1))[0] if whole.shape == parts.shape else [0]
+                ctx.fail("C06.g_long_input", cell, {"scheme": s, "layout": "long", "shape": list(shape), "mode": mode, "seed": case.get("seed", ctx.seed)}, {"first_differing_point": int(bad[0]) if len(bad) else None, "n_differing": int(len(bad))},
+                         "same values as in pieces of 997 points", "a long input is demodulated differently from the same points presented in short pieces", "c06:check_long")
+            ctx.nontrivial(cell, shape, mode)
+    ctx.cls("long_inputs")
+
+
 def check_case(ctx, cell, case):
     s = case["scheme"]
     y = case.get("y")
@@ -297,6 +329,7 @@ def check_case(ctx, cell, case):
 def unit_schemes(ctx, schemes):
     for s in schemes:
         ok, _ = ctx.call(lambda: check_scheme(ctx, s), "C06.scheme_raises", dict(s), {"scheme": s}, checker=CHK)
+        ctx.call(lambda: check_long(ctx, None, {"scheme": s}), "C06.scheme_raises", {**s, "layout": "long"}, {"scheme": s, "layout": "long"}, checker="c06:check_long")
         if s["scheme"] == "pi4qpsk":
             ctx.call(lambda: check_pi4_1d(ctx, s), "C06.scheme_raises", {**s, "layout": "1d"}, {"scheme": s, "layout": "1d"}, checker="c06:replay_pi4_1d")
 
